@@ -105,7 +105,8 @@ class C02(Prop):
                 offk = drive.values(drive.dt_offline(text, names, data, k + 1, sd=sd))
             except Exception as e:
                 continue
-            expk = ref.evaluate(f, data, k + 1)
+            expk = ref.evaluate(f, data, k + 1, pred_hook=(hook_discrete(case['ia'][0], case['ia'][1])
+                                                           if case.get('ia') else None))
             if not ref.same(on[k], offk[k] if expk[k] == expk[k] else expk[k], rel):
                 v.bad('online!=offline-on-prefix', '%s data=%s: update #%d returned %r but offline on the %d-sample '
                       'prefix gives %r' % (text, data, k, on[k], k + 1, offk[k]))
